@@ -401,4 +401,108 @@ Section Refine.
       + rewrite app_length in Hfuel. destruct (wenc_field_cons (n, entry_wval (k, x))) as [b' [t' E']].
         rewrite E' in Hfuel. cbn [length] in Hfuel. lia.
   Qed.
+
+  (* ---------------------------------------------------------------- one field value of any shape *)
+  Definition P (v : pval) : Prop := forall d lbl t n p rest,
+    wf_fld S lbl t v = true -> pval_bytes_okb v = true -> pj_fld S o lbl t v = Some p ->
+    (depth v <= d)%nat -> 1 <= n <= MAX_FIELD_NUMBER -> (lbl = LSingular \/ stops n rest) ->
+    match fvals v with
+    | w :: ws => walk_lbl d lbl t n (wt_of_wval w) (wenc_val w ++ wenc (map (pair n) ws) ++ rest) = res p rest
+    | [] => True
+    end.
+
+  Lemma single_of_P : forall x d t p, P x -> wf_fld S LSingular t x = true -> pval_bytes_okb x = true ->
+    pj_fld S o LSingular t x = Some p -> (depth x <= d)%nat ->
+    forall r, read_single f64_lex o (wm d) t (wenc_val (sval x) ++ r) = res p r.
+  Proof.
+    intros x d t p HP Hwf Hb Hp Hd r.
+    specialize (HP d LSingular t 1 p r Hwf Hb Hp Hd ltac:(unfold MAX_FIELD_NUMBER; lia) (or_introl eq_refl)).
+    destruct x; cbn [wf_fld] in Hwf; try discriminate; cbn [fvals sval map wenc flat_map app] in HP |- *; exact HP.
+  Qed.
+
+  Lemma numeric_wt_not2 : forall k, is_numeric k = true -> (wt_of_kind k =? 2) = false.
+  Proof.
+    intros k H. unfold is_numeric in H.
+    destruct (Z.eqb_spec (wt_of_kind k) 2) as [E|]; [|reflexivity].
+    rewrite E in H. discriminate H.
+  Qed.
+
+  Lemma flat_map_packed_scalars : forall k xs,
+    flat_map packed_elem (map (VScalar k) xs) = flat_map (fun x => wenc_val (scalar_to_wire k x)) xs.
+  Proof. intros k xs. induction xs as [|x r IH]; [reflexivity|]. cbn [map flat_map packed_elem]. rewrite IH. reflexivity. Qed.
+
+  Lemma ptext_arr : forall ps, json_print (pj_json (PJArr ps)) = 91 :: join (map ptext ps) ++ [93].
+  Proof. intros ps. cbn [pj_json]. rewrite print_arr, map_map. reflexivity. Qed.
+
+  Lemma elems_F2 : forall d t vs ps,
+    (forall v, In v vs -> P v) -> (forall v, In v vs -> wf_fld S LSingular t v = true) ->
+    (forall v, In v vs -> pval_bytes_okb v = true) -> (forall v, In v vs -> (depth v <= d)%nat) ->
+    Forall2 (fun x y => pj_fld S o LSingular t x = Some y) vs ps ->
+    Forall2 (fun v p => wf_wval (sval v) = true /\
+                        forall r, read_single f64_lex o (wm d) t (wenc_val (sval v) ++ r) = res p r) vs ps.
+  Proof.
+    intros d t vs ps H1 H2 H3 H4 HF. induction HF as [|v p vs ps Hp _ IHF]; [constructor|].
+    constructor.
+    - split; [apply (sval_wf S t); apply H2; left; reflexivity|].
+      apply single_of_P; [apply H1 | apply H2 | apply H3 | exact Hp | apply H4]; left; reflexivity.
+    - apply IHF; intros v' Hv'; [apply H1 | apply H2 | apply H3 | apply H4]; right; exact Hv'.
+  Qed.
+
+  Lemma P_list : forall q vs, Forall P vs -> P (VList q vs).
+  Proof.
+    intros q vs IH d lbl t n p rest Hwf Hb Hp Hd Hn Hstop.
+    destruct lbl as [|pk|kk]; cbn [wf_fld] in Hwf; try discriminate.
+    destruct Hstop as [Hstop|Hstop]; [discriminate|].
+    apply andb_true_iff in Hwf as [Hwf Hall]. apply andb_true_iff in Hwf as [Hwf Hplen].
+    apply andb_true_iff in Hwf as [Hq Hne]. apply eqb_prop in Hq.
+    cbn [pj_fld] in Hp.
+    match type of Hp with option_map _ ?x = _ => destruct x as [ps|] eqn:E; [|discriminate] end.
+    inversion Hp; subst p. clear Hp. apply seq_opt_Forall2 in E.
+    cbn [pval_bytes_okb] in Hb. cbn [depth] in Hd.
+    rewrite forallb_forall in Hall, Hb. rewrite Forall_forall in IH.
+    assert (Hdep : forall x, In x vs -> (depth x <= d)%nat).
+    { intros x Hx. pose proof (fold_max_ge depth vs x Hx). lia. }
+    destruct q.
+    - (* packed *)
+      symmetry in Hq. apply andb_true_iff in Hq as [_ Htn].
+      destruct t as [k|]; [|discriminate Htn]. cbn [type_numeric] in Htn.
+      destruct (packed_elems_scalars S k vs) as [xs [Evs Hxs]]; [apply forallb_forall; exact Hall | exact Htn |].
+      subst vs. cbn [fvals wt_of_wval map wenc flat_map app wenc_val].
+      cbn [negb orb] in Hplen. apply Z.ltb_lt in Hplen.
+      unfold walk_lbl, walk_list. cbn [Z.eqb Pos.eqb type_numeric]. rewrite Htn. cbn [andb].
+      rewrite <- app_assoc, rd_len_enc by (pose proof (plen_nonneg (flat_map packed_elem (map (VScalar k) xs))); lia).
+      rewrite take_app. rewrite flat_map_packed_scalars.
+      assert (HF : Forall2 (fun x p => scalar_okb k x = true /\ pj_scalar o k x = Some p) xs ps).
+      { clear - E Hxs. revert ps E. induction Hxs as [|x xs Hx _ IHx]; intros ps E.
+        - inversion E. constructor.
+        - inversion E as [|? p0 ? ps0 Hp0 E0]; subst. constructor; [|apply IHx; exact E0].
+          split; [exact Hx|]. cbn [pj_fld] in Hp0. rewrite Z.eqb_refl in Hp0. exact Hp0. }
+      rewrite (packed_loop_ok d k xs ps Htn HF) by lia.
+      unfold res. cbn [pj_finite]. destruct (forallb pj_finite ps); [|reflexivity].
+      rewrite ptext_arr. reflexivity.
+    - (* one record per element *)
+      destruct vs as [|x vs]; [discriminate Hne|].
+      inversion E as [|? px ? ps' Hpx E']; subst.
+      cbn [fvals map].
+      assert (Hwt : (wt_of_wval (sval x) =? 2) && type_numeric t = false).
+      { destruct (type_numeric t) eqn:Htn; [|apply andb_false_r].
+        destruct t as [k|]; [|discriminate Htn]. cbn [type_numeric] in Htn.
+        pose proof (Hall x (or_introl eq_refl)) as Hx.
+        destruct x as [k' x'|k' b'| | |]; cbn [wf_fld] in Hx; try discriminate.
+        - apply andb_true_iff in Hx as [Hx Hok]. apply andb_true_iff in Hx as [Hk Hn']. apply Z.eqb_eq in Hk. subst k'.
+          cbn [sval]. rewrite (proj2 (proj2 (scalar_rt k x' Hn' Hok))), (numeric_wt_not2 k Hn'). reflexivity.
+        - apply andb_true_iff in Hx as [Hx _]. apply andb_true_iff in Hx as [Hk Hby]. apply Z.eqb_eq in Hk. subst k'.
+          rewrite (numeric_not_bytes k Htn) in Hby. discriminate Hby. }
+      unfold walk_lbl, walk_list. rewrite Hwt.
+      rewrite (single_of_P x d t px (IH x (or_introl eq_refl)) (Hall x (or_introl eq_refl)) (Hb x (or_introl eq_refl)) Hpx
+                 (Hdep x (or_introl eq_refl))).
+      unfold res. cbn [pj_finite forallb]. destruct (pj_finite px); [|reflexivity]. cbn [andb].
+      assert (HF : Forall2 (fun v p => wf_wval (sval v) = true /\
+                        forall r, read_single f64_lex o (wm d) t (wenc_val (sval v) ++ r) = res p r) vs ps').
+      { apply elems_F2; [| | | |exact E']; intros v Hv; [apply IH | apply Hall | apply Hb | apply Hdep]; right; exact Hv. }
+      rewrite (unpacked_loop_ok d t n vs ps' Hn HF _ rest Hstop) by lia.
+      destruct (forallb pj_finite ps'); [|reflexivity].
+      rewrite ptext_arr. cbn [map]. rewrite join_cons. unfold ptext.
+      repeat (rewrite <- ?app_assoc; cbn [app]). reflexivity.
+  Qed.
 End Refine.
